@@ -1,55 +1,25 @@
-(* RunC02.v — executable wrappers for DSL-built single-module designs (comb + one sync domain). *)
+(* RunC02.v — executable wrappers for designs written in the Module DSL (several modules, comb + any number of clock
+   domains).  The lowering (If/Switch/FSM, pattern normalisation, state encoding, register shape and init) and the
+   simulation loop are the model's (Model/DslRaw.v); nothing is lowered here. *)
 From Coq Require Import ZArith List Bool.
-From V.Model Require Export Bits Shape Ast Denote PyRTL PyEval Stmt Process Dsl.
+From V.Model Require Export Bits Shape Ast Denote PyRTL PyEval Stmt Process Derived Dsl DslRaw.
 From V.Harness Require Import Run.
-From V.Harness Require Export RunC01 RunC05.
 Import ListNotations.
 Open Scope Z_scope.
 
-Definition mk_tab (l : list sigdesc) : sigtab := fun i => nth i l {| sd_shape := Sh 0 false; sd_init := 0; sd_reset_less := false |}.
-Definition SD (w : Z) (sg : bool) (init : Z) (rl : bool) : sigdesc := {| sd_shape := Sh w sg; sd_init := init; sd_reset_less := rl |}.
+Definition SD (w : Z) (sg : bool) (init : Z) (rl : bool) : sigdesc := mk_sd (Sh w sg) init rl.
+Definition FUEL : nat := 16.
 
-Definition env_eqb (n : nat) (a b : env) : bool := forallb (fun i => a i =? b i) (seq 0 n).
+(* a design written in the DSL: lowered and simulated by the model *)
+Definition k_design (sigs : list sigdesc) (doms : list domdesc) (mods : list (list ritem))
+    (evs : list (list (nat * Z))) : list Z := dsl_design FUEL sigs doms mods evs.
 
-(* run the comb process and commit until nothing changes (delta cycles) *)
-Fixpoint settle (fuel : nat) (n : nat) (tab : sigtab) (comb : list stmt) (st : slots) : slots :=
-  match fuel with
-  | O => st
-  | S f =>
-      let st' := commit (comb_process tab comb st) in
-      if env_eqb n (s_curr st') (s_curr st) then st' else settle f n tab comb st'
+(* the same with the statements as lowered by the real Module (serialised from the elaborated fragments) *)
+Definition k_stmts (sigs : list sigdesc) (doms : list domdesc) (mods : design) (evs : list (list (nat * Z))) : list Z :=
+  match run_design FUEL (length sigs) (base_tab sigs) doms mods evs with
+  | None => [2]
+  | Some tr => 1 :: tr
   end.
-
-Inductive event := EvSet (i : nat) (v : Z) | EvTick.
-
-Definition init_slots (l : list sigdesc) : slots :=
-  let e : env := fun i => sd_init (mk_tab l i) in {| s_curr := e; s_next := e |}.
-
-Definition step (n : nat) (tab : sigtab) (comb sync : list stmt) (rst : option nat) (st : slots) (ev : event) : slots :=
-  match ev with
-  | EvSet i v => settle 16 n tab comb (commit {| s_curr := s_curr st; s_next := upd (s_next st) i v |})
-  | EvTick => settle 16 n tab comb (commit (sync_process tab sync rst st))
-  end.
-
-Definition run_design (sigs : list sigdesc) (comb sync : list stmt) (rst : option nat) (evs : list event) : list Z :=
-  let n := length sigs in
-  let tab := mk_tab sigs in
-  let st0 := settle 16 n tab comb (init_slots sigs) in
-  let fix go (st : slots) (evs : list event) : list Z :=
-    match evs with
-    | [] => []
-    | ev :: evs' => let st' := step n tab comb sync rst st ev in read_sigs n (s_curr st') ++ go st' evs'
-    end in
-  read_sigs n (s_curr st0) ++ go st0 evs.
-
-(* a design written in the DSL: lowered by the model *)
-Definition k_dsl (sigs : list sigdesc) (comb sync : list dstmt) (rst : option nat) (evs : list event) : list Z :=
-  if forallb wf_dstmt comb && forallb wf_dstmt sync
-  then 1 :: run_design sigs (map lower comb) (map lower sync) rst evs else [0].
-
-(* the same with the statements as lowered by the real Module (serialised from the elaborated fragment) *)
-Definition k_stmts (sigs : list sigdesc) (comb sync : list stmt) (rst : option nat) (evs : list event) : list Z :=
-  1 :: run_design sigs comb sync rst evs.
 
 (* SPEC rendering: per-bit "last active assignment wins" straight from dactive / last_writer-style search *)
 Fixpoint last_writer_x (curr : env) (al : list (expr * expr)) (i : nat) (b : Z) : option (Z * expr) :=
@@ -65,31 +35,56 @@ Fixpoint last_writer_x (curr : env) (al : list (expr * expr)) (i : nat) (b : Z) 
 Definition spec_value (s : shape) (bitf : Z -> bool) : Z :=
   norm s (fold_right (fun b acc => (if bitf (Z.of_nat b) then 2 ^ Z.of_nat b else 0) + acc) 0 (seq 0 (Z.to_nat (width s)))).
 
-(* comb-only design, spec: every comb-driven signal = init overridden by active assignments (evaluated in the settled state) *)
-Definition k_comb_spec_gen (check_wf : bool) (sigs : list sigdesc) (comb : list dstmt) (driven : list nat) (evs : list event) : list Z :=
-  if negb check_wf || forallb wf_dstmt comb then
-    let n := length sigs in
-    let tab := mk_tab sigs in
-    let stmts := map lower comb in
-    let st0 := settle 16 n tab stmts (init_slots sigs) in
-    let check (st : slots) : list Z :=
-      let curr := s_curr st in
-      let al := flat_map (dactive curr) comb in
-      map (fun i =>
-             let s := sd_shape (tab i) in
-             spec_value s (fun b => match last_writer_x curr al i b with
-                                    | Some (k, r) => Z.testbit (denote curr r) k
-                                    | None => Z.testbit (sd_init (tab i)) b
-                                    end)) driven in
-    let fix go (st : slots) (evs : list event) : list Z :=
-      match evs with
-      | [] => []
-      | ev :: evs' => let st' := step n tab stmts [] None st ev in check st' ++ go st' evs'
-      end in
-    1 :: check st0 ++ go st0 evs
-  else [0].
+(* comb-only single-module design, spec: every comb-driven signal = init overridden by the active assignments
+   (evaluated in the settled state) *)
+Definition k_comb_spec_gen (check_wf : bool) (sigs : list sigdesc) (prog : list rstmt) (driven : list nat)
+    (evs : list (list (nat * Z))) : list Z :=
+  match rproj_list None 0 prog with
+  | inr e => [0; e]
+  | inl comb =>
+    if negb check_wf || forallb wf_dstmt comb then
+      let n := length sigs in
+      let tab := base_tab sigs in
+      let mods : design := [[map lower comb]] in
+      let check (st : slots) : list Z :=
+        let curr := s_curr st in
+        let al := flat_map (dactive curr) comb in
+        map (fun i =>
+               let s := sd_shape (tab i) in
+               spec_value s (fun b => match last_writer_x curr al i b with
+                                      | Some (k, r) => Z.testbit (denote curr r) k
+                                      | None => Z.testbit (sd_init (tab i)) b
+                                      end)) driven in
+      let fix go (st : slots) (evs : list (list (nat * Z))) : list Z :=
+        match evs with
+        | [] => []
+        | ev :: evs' => let st' := fst (step FUEL n tab [] mods st ev) in check st' ++ go st' evs'
+        end in
+      let st0 := fst (settle FUEL n tab mods (init_slots tab)) in
+      1 :: check st0 ++ go st0 evs
+    else [0; 0]
+  end.
 
 Definition k_comb_spec := k_comb_spec_gen true.
-(* the same per-bit specification for targets that name a signal twice (no linearity check): the netlist and
-   testbench semantics; the simulator's read-modify-write code differs there (known finding F9) *)
-Definition k_comb_spec_alias := k_comb_spec_gen false.
+
+(* targets that name a signal twice (no linearity check).  Two answers separated by -99:
+   the per-bit specification (= the netlist and testbench semantics), and the simulator's read-modify-write
+   semantics (assign_rtl, _LHSValueCompiler) — they differ exactly in known finding F9 *)
+Definition k_comb_rmw (sigs : list sigdesc) (prog : list rstmt) (driven : list nat) (evs : list (list (nat * Z))) : list Z :=
+  match rproj_list None 0 prog with
+  | inr e => [0; e]
+  | inl comb =>
+      let n := length sigs in
+      let tab := base_tab sigs in
+      let mods : design := [[map lower comb]] in
+      let rd (st : slots) : list Z := map (s_curr st) driven in
+      let fix go (st : slots) (evs : list (list (nat * Z))) : list Z :=
+        match evs with
+        | [] => []
+        | ev :: evs' => let st' := fst (step FUEL n tab [] mods st ev) in rd st' ++ go st' evs'
+        end in
+      let st0 := fst (settle FUEL n tab mods (init_slots tab)) in
+      1 :: rd st0 ++ go st0 evs
+  end.
+Definition k_comb_alias (sigs : list sigdesc) (prog : list rstmt) (driven : list nat) (evs : list (list (nat * Z))) : list Z :=
+  k_comb_spec_gen false sigs prog driven evs ++ [-99] ++ k_comb_rmw sigs prog driven evs.
